@@ -133,6 +133,38 @@ func hC17(L, vlen int) {
 		vAssert(dbs[0].Count() == dbs[1].Count() && dbs[0].Count() == dbs[2].Count(), "C17.count-agrees")
 		vAssert(dbs[0].Count() == r.count(), "C17.count")
 	}
+	// a scan that is interrupted by an overwrite of everything and a compaction
+	// (the segments the queued items were read from disappear) behaves the same everywhere
+	var first [3][]byte
+	var rest [3]int
+	ov := vBytes("ov", vlen)
+	for i := range fss {
+		it := dbs[i].Items()
+		_, v1, err := it.Next()
+		vAssert(err == nil || err == ErrIterationDone, "C17.scan.first")
+		first[i] = v1
+		for k := 0; k < n; k++ {
+			vAssert(dbs[i].Put(r.keys[k], ov) == nil, "C17.scan.put")
+		}
+		_, err = dbs[i].Compact()
+		vAssert(err == nil, "C17.scan.compact")
+		for j := 0; j < 2*vMaxKeys; j++ {
+			_, _, err := it.Next()
+			if err != nil {
+				vAssert(err == ErrIterationDone, "C17.scan.next")
+				break
+			}
+			rest[i]++
+		}
+	}
+	for k := 0; k < n; k++ {
+		r.present[k], r.val[k] = true, ov
+	}
+	vAssert(rest[0] == rest[1] && rest[0] == rest[2], "C17.scan.same-number-of-items")
+	vAssert((first[0] == nil) == (first[1] == nil) && (first[0] == nil) == (first[2] == nil), "C17.scan.first-agrees")
+	if first[0] != nil && first[1] != nil && first[2] != nil {
+		vAssert(vEqBytes(first[0], first[1]) && vEqBytes(first[0], first[2]), "C17.scan.first-value-agrees")
+	}
 	// segment files are byte-identical
 	for i := range fss {
 		vAssert(dbs[i].Sync() == nil, "C17.sync")
